@@ -445,6 +445,14 @@ def gen_units(rng, n):
         vs = [[rng.uniform(-1, 1), rng.uniform(-1, 1)] for _ in range(m)]
         U.append(dict(kind="unit", fn="project", args=dict(vs=vs, c2p=[xa, ya], pp=ctr)))
         U.append(dict(kind="unit", fn="order", args=dict(pts=[[r * math.cos(a) + 0.3, r * math.sin(a) - 0.2] for a in rng.sample(angs, m)])))
+    # deterministic members of the rarely taken arms: weighted centre at the origin (d == 0), zero-area polygon,
+    # an 8-vertex polygon (all 6 rows of the TRIANGLES table)
+    U.append(dict(kind="unit", fn="same", args=dict(e=[0.5, 0.0, 0.0, 0.0], t=[[0.0, 0.0, 0.0], [1.0, 0.0, 0.0], [0.0, 1.0, 0.0], [0.0, 0.0, 1.0]])))
+    tet = [[0.0, 0.0, 0.0], [4.0, 0.0, 0.0], [0.0, 4.0, 0.0], [0.0, 0.0, 4.0]]
+    U.append(dict(kind="unit", fn="force", args=dict(t=tet, e=[0.0, 0.0, 0.0, 1.0], plane=[0.0, 0.0, 1.0, 0.5],
+                                                      poly=[[0.5, 0.5, 0.5]] * 3, E=2.0)))
+    oct8 = [[1.0 + 0.5 * math.cos(k * math.pi / 4), 1.0 + 0.5 * math.sin(k * math.pi / 4), 0.5] for k in range(8)]
+    U.append(dict(kind="unit", fn="force", args=dict(t=tet, e=[0.0, 0.25, 0.5, 1.0], plane=[0.0, 0.0, 1.0, 0.5], poly=oct8, E=0.5)))
     for m in range(3, 9):
         U.append(dict(kind="unit", fn="tess", args=dict(n=m)))
     # --- intersect_tetrahedron_pairs: index wiring of the batch loop (distinct potentials per tetrahedron)
